@@ -525,6 +525,7 @@ def embedded_with_path(x, inside=False):
 
 
 KNOWN_SCOPE_ANY = 'known:qualifier-declaration-scope-ANY-false-sent-as-SCOPE-attribute'
+KNOWN_BOOLEAN_FALSE = 'known:paramvalue-boolean-FALSE-typed-True-by-cimvalue'
 
 
 def short(v):
@@ -614,7 +615,11 @@ class ParamValueCodec(Codec):
     @staticmethod
     def parse(xml):
         name, ptype, raw = parse_default(xml)
-        return CIMParameter(name, ptype, value=unpack_raw(raw, ptype))
+        # parse_paramvalue does not return the EmbeddedObject attribute; CIMParameter looks at the first entry only
+        flat = raw if isinstance(raw, list) else [raw]
+        eo = 'object' if any(isinstance(e, CIMClass) for e in flat) else \
+            'instance' if any(isinstance(e, CIMInstance) for e in flat) else None
+        return CIMParameter(name, ptype, value=unpack_raw(raw, ptype), embedded_object=eo)
 
     @staticmethod
     def view(v, x):
@@ -723,7 +728,7 @@ def request_paramvalues(x, **invoke_args):
         SERVER.invoke(True, **invoke_args)
     except AttributeError as e:
         if "'NoneType' object has no attribute 'nodeType'" in str(e) and isinstance(x.value, list) and \
-                None in x.value and '_methodcall' in tb_functions(e) and tb_functions(e)[-1] == 'appendChild':
+                any(e is None for e in x.value) and '_methodcall' in tb_functions(e) and tb_functions(e)[-1] == 'appendChild':
             raise KnownDefect(NULL_PARAM_ID, NULL_PARAM_WHAT)
         raise
     req = SERVER.request
@@ -753,7 +758,11 @@ class InvokeKwCodec(InvokeParamCodec):
     """InvokeMethod(P=value): CIM type and embedded-object kind inferred from the value"""
     @staticmethod
     def enc(x):
-        return request_paramvalues(x, **{x.name: x.value})
+        value = x.value
+        if x.type == 'char16' and isinstance(value, list):
+            # char16 output parameters are plain str (the type is in PARAMTYPE); a keyword argument needs Char16
+            value = [None if e is None else Char16(e) for e in value]
+        return request_paramvalues(x, **{x.name: value})
     reenc = enc
 
 
@@ -785,8 +794,9 @@ def render_input(x0):
     return repr(x0)[:600]
 
 
-def check(key, x0, codec=Codec, expected=None, enc=None, **desc):
-    """one case: x0 is the hand-built object; returns the object the real parser read back (None: no such object)"""
+def check(key, x0, codec=Codec, expected=None, enc=None, once=False, **desc):
+    """one case: x0 is the hand-built object; returns the object the real parser read back (None: no such object).
+    once: leave out the second round trip (used by the large array shape sweeps)"""
     R.case(key)
     desc = dict(case=Lazy(lambda: repr(key)[:200]), input=Lazy(lambda: render_input(x0)), **desc)
     if _cim_xml._CDATA_ESCAPING:
@@ -843,7 +853,13 @@ def check(key, x0, codec=Codec, expected=None, enc=None, **desc):
     if got != expected:
         d = []
         diff(expected, got, 'top', d)
-        report('roundtrip', [t for t in d if t[0] not in wire_slots or known_leaf(*t)], desc)
+        d = [t for t in d if t[0] not in wire_slots or known_leaf(*t)]
+        if issubclass(codec, InvokeParamCodec):
+            # the output parameters of InvokeMethod are typed by cimvalue(): same defect as client_typed below
+            for slot, exp, obs in [t for t in d if t[1:] == (('boolean', False), ('boolean', True))]:
+                violation(KNOWN_BOOLEAN_FALSE, slot=slot, expected=short(exp), observed=short(obs), **desc)
+            d = [t for t in d if t[1:] != (('boolean', False), ('boolean', True))]
+        report('roundtrip', d, desc)
     if codec is ParamValueCodec:
         try:
             got = codec.view(GOT, codec.client_typed(xml0))
@@ -854,10 +870,11 @@ def check(key, x0, codec=Codec, expected=None, enc=None, **desc):
             diff(expected, got, 'top', d)
             for slot, exp, obs in d:
                 if exp == ('boolean', False) and obs == ('boolean', True):
-                    violation('known:paramvalue-boolean-FALSE-typed-True-by-cimvalue', slot=slot, expected=short(exp),
-                              observed=short(obs), **desc)
+                    violation(KNOWN_BOOLEAN_FALSE, slot=slot, expected=short(exp), observed=short(obs), **desc)
                 elif not known_leaf(slot, exp, obs):
                     report('paramvalue-client-typing', [(slot, exp, obs)], desc)
+    if once:
+        return x1
     # 3. once more: same object, byte-identical XML
     try:
         xml1 = codec.reenc(x1)
@@ -1333,6 +1350,232 @@ def family_objects(rnd):
         check(('emb-with-path', host, ns, 'inst'), CIMInstance('C', properties=[CIMProperty('E', [ei])]))
 
 
+# array shapes --------------------------------------------------------------------------------------
+# every array over {a, b, NULL} up to a length bound, in every carrier of an array value.  a is the "falsy" value
+# of its type (0, False, '', zero interval), b a different one, so that a decoder or encoder that tests `if v`
+# instead of `v is None`, drops, merges, reorders or pads entries shows up as a changed shape code.
+class send_value_null:
+    """run with pywbem's SEND_VALUE_NULL switch set (the encoder reads the name bound in _cim_obj)"""
+    def __init__(self, flag):
+        self.flag = flag
+
+    def __enter__(self):
+        self.old = (_cim_obj.SEND_VALUE_NULL, pywbem.config.SEND_VALUE_NULL)
+        _cim_obj.SEND_VALUE_NULL = pywbem.config.SEND_VALUE_NULL = self.flag
+
+    def __exit__(self, *a):
+        _cim_obj.SEND_VALUE_NULL, pywbem.config.SEND_VALUE_NULL = self.old
+
+
+class ArrayKind:
+    def __init__(self, label, t, a, b, eo=None):
+        self.label, self.t, self.a, self.b, self.eo = label, t, a, b, eo
+        self.plain = eo is None and t != 'reference'
+        self.views = {'a': EXPECT.value(typed(t, a) if self.plain else a, t),
+                      'b': EXPECT.value(typed(t, b) if self.plain else b, t)}
+        assert self.views['a'] != self.views['b']
+
+    def value(self, code, as_typed=False):
+        m = {'a': self.a, 'b': self.b, 'N': None}
+        v = [m[c] for c in code]
+        if as_typed and self.t == 'char16':
+            return [None if e is None else Char16(e) for e in v]    # cimvalue() leaves char16 as str
+        return typed(self.t, v) if as_typed and self.plain else v
+
+    def code_of(self, value):
+        """shape code of a value that was read back, from the views of its entries"""
+        if not isinstance(value, list):
+            return 'not-a-list:' + type(value).__name__
+        out = ''
+        for e in value:
+            if e is None:
+                out += 'N'
+                continue
+            try:
+                ev = GOT.value(e, self.t)
+            except Exception:  # pylint: disable=broad-except
+                ev = None
+            out += 'a' if ev == self.views['a'] else 'b' if ev == self.views['b'] else '?'
+        return out
+
+
+def array_kinds():
+    kinds = []
+    for t in TYPES:
+        if t == 'boolean':
+            a, b = False, True
+        elif t == 'string':
+            a, b = '', 'x y'
+        elif t == 'char16':
+            a, b = '0', 'Z'
+        elif t in INT_RANGE:
+            lo, hi = INT_RANGE[t]
+            a, b = 0, (lo if lo < 0 else hi)
+        elif t == 'real32':
+            a, b = 0.0, -1.5
+        elif t == 'real64':
+            a, b = 0.0, 0.1
+        else:
+            a, b = CIMDateTime(DATETIMES[2]), CIMDateTime(DATETIMES[0])
+        kinds.append(ArrayKind(t, t, a, b))
+    kinds.append(ArrayKind('reference', 'reference', CIMInstanceName('C_A', [('k', Uint8(0))]),
+                           CIMClassName('C_B', host='h', namespace='root/x')))
+    ia = CIMInstance('A')
+    ib = CIMInstance('B', properties=[CIMProperty('p', ['', 'x'], type='string'), CIMProperty('n', 0, type='uint8')])
+    cb = CIMClass('B', properties=[CIMProperty('p', [0, 255], type='uint8', is_array=True)])
+    kinds.append(ArrayKind('embinst', 'string', ia, ib, eo='instance'))
+    kinds.append(ArrayKind('embobj', 'string', ib, cb, eo='object'))
+    return kinds
+
+
+def array_carriers(kind):
+    """(label, build(code) -> x0, codec, get(x1) -> array read back, expected view or None)"""
+    t, eo = kind.t, kind.eo
+
+    def prop(code, name='P', **kw):
+        return CIMProperty(name, kind.value(code), type=t, is_array=True, embedded_object=eo, **kw)
+
+    def param(code):
+        return CIMParameter('P', t, value=kind.value(code), is_array=True, embedded_object=eo)
+
+    def value_of(x):
+        return x.value
+
+    def kw_expected(code):
+        # the CIM type of a keyword argument can only come from its entries
+        return ('pval', 'P', t, EXPECT.value(typed(t, kind.value(code)) if kind.plain else kind.value(code), t))
+
+    out = []
+    if t != 'reference':
+        out.append(('prop', prop, Codec, value_of, None))
+        out.append(('instprop', lambda c: CIMInstance('C', properties=[prop(c)],
+                                                      path=CIMInstanceName('C', [('k', 'v')], namespace='root')),
+                    Codec, lambda x: x.properties['P'].value, None))
+        # class property default, qualified by an array of the same shape where qualifiers can have the type
+        out.append(('classprop',
+                    lambda c: CIMClass('C', properties=[prop(c, array_size=7, class_origin='C', qualifiers=(
+                        [CIMQualifier('Q', kind.value(c), type=t)] if kind.plain else []))]),
+                    Codec, lambda x: x.properties['P'].value, None))
+        # instance property inside an instance inside an embedded object, and a class default inside an embedded class
+        out.append(('nested',
+                    lambda c: CIMProperty('E', CIMInstance('Outer', properties=[
+                        CIMProperty('I', CIMInstance('Inner', properties=[prop(c)]))])),
+                    Codec, lambda x: x.value.properties['I'].value.properties['P'].value, None))
+        out.append(('nested-class',
+                    lambda c: CIMProperty('E', [CIMInstance('X'), CIMClass('Outer', properties=[prop(c)])],
+                                          embedded_object='object'),
+                    Codec, lambda x: x.value[1].properties['P'].value, None))
+    if kind.plain:
+        out.append(('qual', lambda c: CIMQualifier('Q', kind.value(c), type=t), Codec, value_of, None))
+        out.append(('qdecl', lambda c: CIMQualifierDeclaration('Q', t, value=kind.value(c), is_array=True,
+                                                               scopes={'PROPERTY': True}), Codec, value_of, None))
+        out.append(('value', lambda c: TypedValue(t, kind.value(c, as_typed=True)), value_codec(t), value_of, None))
+    out.append(('pval', param, ParamValueCodec, value_of, None))
+    out.append(('invoke', param, InvokeParamCodec, value_of, None))
+    out.append(('invoke-reply', param, InvokeReplyCodec, value_of, None))
+    out.append(('invoke-kw', lambda c: ParamHolder('P', t, kind.value(c, as_typed=True), eo), InvokeKwCodec, value_of,
+                kw_expected))
+    return out
+
+
+def check_shape(carrier, kind, code, build, codec, get, expected):
+    """flag on (default): the full check, then the shape code of what was read back against the one sent"""
+    key = ('shape', carrier, kind.label, code)
+    x0 = build(code)
+    x1 = check(key, x0, codec, expected=expected(code) if expected else None, once=len(code) > 2, carrier=carrier,
+               kind=kind.label, shape=code)
+    if x1 is None:
+        return
+    try:
+        got = kind.code_of(get(x1))
+    except Exception as e:  # pylint: disable=broad-except
+        got = 'unreadable:' + type(e).__name__
+    if got != code and carrier.startswith('invoke') and kind.label == 'boolean' and got == code.replace('a', 'b'):
+        return      # FALSE entries typed True: recorded by check() as KNOWN_BOOLEAN_FALSE
+    if got != code:
+        violation(f'array-shape-differs[{carrier}]', carrier=carrier, kind=kind.label, sent_shape=code,
+                  read_back_shape=got, input=Lazy(lambda: render_input(x0)))
+
+
+PARSE_ERRORS = ('CIMXMLParseError', 'XMLParseError')
+
+
+def check_shape_null_off(carrier, kind, code, build, codec, get):
+    """SEND_VALUE_NULL = False is the documented compatibility mode "NULL entries are sent as VALUE elements with an
+    empty value".  Modelled as documented: the wire form is the default one with each VALUE.NULL replaced by an empty
+    VALUE, entry for entry; read back, a string array shows '' at those positions, the parser may refuse the empty
+    VALUE for the types that have no empty representation, and everything it does accept keeps length, order and
+    the non-NULL entries."""
+    R.case(('shape-null-off', carrier, kind.label, code))
+    x0 = build(code)
+    desc = dict(carrier=carrier, kind=kind.label, shape=code, send_value_null=False,
+                input=Lazy(lambda: render_input(x0)))
+    try:
+        xml_on = codec.enc(x0)
+        with send_value_null(False):
+            xml_off = codec.enc(x0)
+    except Exception as e:  # pylint: disable=broad-except
+        violation('null-off-encode-raises-' + type(e).__name__, error=str(e)[:200], **desc)
+        return
+    desc['xml'] = xml_off[:600]
+    if xml_off != xml_on.replace('VALUE.NULL/', 'VALUE/') or xml_on.count('VALUE.NULL/') < code.count('N'):
+        violation('null-off-wire-form-is-not-default-with-empty-VALUE-for-VALUE.NULL', default_xml=xml_on[:600],
+                  **desc)
+    try:
+        x1 = codec.parse(xml_off)
+    except Exception as e:  # pylint: disable=broad-except
+        if type(e).__name__ not in PARSE_ERRORS or (kind.label == 'string'):
+            violation('null-off-parse-raises-' + type(e).__name__, error=str(e)[:300], **desc)
+        return
+    try:
+        got = kind.code_of(get(x1))
+    except Exception as e:  # pylint: disable=broad-except
+        got = 'unreadable:' + type(e).__name__
+    want = code.replace('N', 'a') if kind.label == 'string' else code
+    if got != want:
+        violation(f'null-off-array-shape-differs[{carrier}]', sent_shape=code, read_back_shape=got,
+                  acceptable_shape=want, **desc)
+
+
+def shape_codes(maxlen):
+    for n in range(maxlen + 1):
+        for tup in itertools.product('abN', repeat=n):
+            yield ''.join(tup)
+
+
+def family_array_shapes(rnd):
+    thorough = R.tier == 'thorough'
+    # quick tier: all shapes up to length 4 in every carrier for one kind per decoding branch (string, boolean,
+    # numeric, embedded, reference) and in the PROPERTY.ARRAY and PARAMVALUE carriers for every kind; the remaining
+    # carrier x kind pairs up to length 2 (the type only matters entry by entry).  thorough: everything to length 5.
+    full = {'string', 'boolean', 'uint8', 'embinst', 'reference'}
+    for kind in array_kinds():
+        for carrier, build, codec, get, expected in array_carriers(kind):
+            if thorough:
+                maxlen = offlen = 5
+            elif carrier == 'invoke-kw':
+                maxlen = offlen = 3
+            elif kind.label in full or carrier in ('prop', 'pval'):
+                maxlen, offlen = 4, (4 if carrier in ('prop', 'pval') and kind.label in full else 3)
+            else:
+                maxlen = offlen = 2
+            if kind.label == 'boolean' and not thorough:
+                offlen = 2      # each empty boolean VALUE costs an inspect.stack() for the parser's warning
+            for code in shape_codes(maxlen):
+                if carrier == 'invoke-kw' and not code.strip('N'):
+                    continue    # [] and [None, ...] as keyword argument: no entry to infer the CIM type from
+                check_shape(carrier, kind, code, build, codec, get, expected)
+                if 'N' in code and len(code) <= offlen and not carrier.startswith('invoke'):
+                    check_shape_null_off(carrier, kind, code, build, codec, get)
+        if thorough:
+            # CDATA escaping mode for the carriers that escape an embedded object
+            for carrier, build, codec, get, expected in array_carriers(kind):
+                if carrier in ('nested', 'nested-class') or (kind.eo and carrier in ('prop', 'pval')):
+                    with cdata():
+                        for code in shape_codes(4):
+                            check_shape(carrier + '-cdata', kind, code, build, codec, get, expected)
+
+
 # seeded random object trees ---------------------------------------------------------------------
 def rnd_value(rnd, t, allow_cr=False):
     if t == 'string':
@@ -1455,6 +1698,7 @@ def main():
     rnd = random.Random(R.seed)
     try:
         family_typed_values(rnd)
+        family_array_shapes(rnd)
         family_paths(rnd)
         family_qualifiers(rnd)
         family_properties(rnd)
